@@ -644,7 +644,12 @@ def real_worker(task):
                 t.join()
             for rec in list(recs):
                 if rec["accepted"] and rec["kind"] in ("fast", "big", "mid"):
-                    out = rec["future"].result(timeout=20)
+                    try:
+                        out = rec["future"].result(timeout=30)
+                    except TimeoutError:
+                        res["violations"].append(dict(what="a job that ends by itself (no time limit, no shutdown) never delivered its result within 30 s", key="real-job-never-completes:" + rec["kind"],
+                                                      kind=rec["kind"], index=idx, mode="real"))
+                        continue
                     want = {"fast": "unsat\n", "mid": "unsat\n", "big": "\0" * 200000}[rec["kind"]]
                     res["counters"]["calm_results_checked"] += 1
                     if out != (want, "", 0):
